@@ -1,0 +1,32 @@
+use crate::map::list::MapList;
+use crate::map::node::Color;
+use crate::map::tree::MapTree;
+use crate::verif::{VerifSlot, VerifTree};
+
+impl<K: Copy, V> MapTree<K, V> {
+    pub fn verif_snapshot(&self) -> VerifTree<K> {
+        VerifTree {
+            root: self.root,
+            slots: self
+                .store
+                .buffer
+                .iter()
+                .map(|n| VerifSlot {
+                    parent: n.parent,
+                    left: n.left,
+                    right: n.right,
+                    red: n.color == Color::Red,
+                    item: n.entity.key,
+                })
+                .collect(),
+            unused: self.store.unused.clone(),
+            unused_capacity: self.store.unused.capacity(),
+        }
+    }
+}
+
+impl<K: Copy, V> MapList<K, V> {
+    pub fn verif_keys(&self) -> Vec<K> {
+        self.buffer.iter().map(|e| e.key).collect()
+    }
+}
